@@ -1,6 +1,6 @@
 // API-level properties on the unified djinterop API (san variant: g++ ASan+UBSan, _GLIBCXX_ASSERTIONS, asserts on).
 #include "common/bigalloc.hpp"
-#include "api_track.hpp"
+#include "api_crate.hpp"
 
 int main(int argc, char** argv)
 {
@@ -18,5 +18,8 @@ int main(int argc, char** argv)
     };
     add("C01", api::prop_c01, 3, 3, 260);
     add("C06", api::prop_c06, 4, 16, 260);
+    add("C07", api::prop_c07, 2, 16, 12);
+    add("C08", api::prop_c08, 3, 28, 12);
+    add("C09", api::prop_c09, 3, 28, 12);
     return vf::pbt_main(argc, argv, specs);
 }
